@@ -123,6 +123,9 @@ def _mk(g, table, cfg, recovery):
         kw["error_recovery"] = recovery
     if cfg.get("ctr"):
         kw["custom_token_recognition"] = peers.custom_token_recognition
+    f = peers.make_filter(cfg.get("filter"))
+    if f:
+        kw["dynamic_filter"] = f
     for k in ("tables", "prefer_shifts", "prefer_shifts_over_empty"):
         kw.pop(k, None)
     return cls(g, table=table, **kw)
@@ -205,6 +208,9 @@ def child_parses(spec, jobs):
                 try:
                     cls = Parser if cfg["kind"] == "lr" else GLRParser
                     kw = build_kwargs(cfg["opts"])
+                    f = peers.make_filter(cfg.get("filter"))
+                    if f:
+                        kw["dynamic_filter"] = f
                     tables[tkey] = cls(g, **kw).table
                 except Exception as e:
                     tables[tkey] = exc_outcome(e)
@@ -322,6 +328,11 @@ def child_parses(spec, jobs):
                         rep["probs"].append(f"str(error) fails: {type(ex).__name__}")
                 elif isinstance(raised, DisambiguationError) and spec.get("lex_overlap"):
                     rep["raised"] = "DisambiguationError(ok)"
+                elif type(raised).__name__ == "DynamicDisambiguationConflict" and cfg.get(
+                        "filter") not in (None, "none") and cfg["kind"] == "lr":
+                    # the documented outcome of an LR parse whose dynamic filter
+                    # leaves more than one action; says nothing about recovery
+                    rep["raised"] = "DynamicDisambiguationConflict(ok)"
                 else:
                     rep["probs"].append(
                         f"raised {type(raised).__name__} instead of SyntaxError: {str(raised)[:200]}")
@@ -430,9 +441,17 @@ def gen_cfg(rng):
 
 
 def gen_run(rng, tier):
-    sc = pool.make_scenario(
-        rng, ["expr", "expr", "expr", "stmt", "stmt", "nullable", "lexamb", "rec", "amb",
-              "random", "dyn"])
+    # a third of the runs reuse their parser instances across the 12 parses and
+    # cut some parses short by a failing callback (recognizer, token-recognition
+    # hook, dynamic filter, recovery strategy): the invariants must hold for
+    # what comes after.  Those runs prefer the families that have such callbacks.
+    reuse = rng.random() < 0.35
+    if reuse:
+        fams = ["rec", "rec", "rec", "dyn", "dyn", "expr", "stmt", "lexamb"]
+    else:
+        fams = ["expr", "expr", "expr", "stmt", "stmt", "nullable", "lexamb", "rec", "amb",
+                "random", "dyn"]
+    sc = pool.make_scenario(rng, fams)
     v = rng.randrange(len(sc["texts"]))
     m = sc["models"][v]
     spec = {"family": sc["family"], "text": sc["texts"][v], "recs": sc["recognizers"][v],
@@ -446,11 +465,10 @@ def gen_run(rng, tier):
             c["kind"] = "glr"
     kinds = [k for k in pool.DAMAGE_KINDS if rng.random() < 0.7] or ["junk"]
     modes = ["default", "default", "default", "skip", "inject", "mixed", "giveup"]
-    # a third of the runs reuse their parser instances across the 12 parses and
-    # cut some parses short by a failing callback (recognizer, token-recognition
-    # hook, recovery strategy): the invariants must hold for what comes after
-    reuse = rng.random() < 0.35
     spec["reuse"] = reuse
+    if sc.get("dynamic"):
+        for c in cfgs:
+            c["filter"] = rng.choice(["prec", "accept", "none"])
     if reuse:
         for c in cfgs:
             c["ctr"] = rng.random() < 0.5
@@ -479,8 +497,12 @@ def gen_run(rng, tier):
                "recovery": rng.choice(modes), "peer_seed": rng.getrandbits(32),
                "faults": fired}
         if reuse and rng.random() < 0.25:
-            job["abort"] = {"seam": rng.choice(["recognizer", "ctr", "recovery"]),
-                            "k": rng.randint(1, 8)}
+            seams = ["ctr", "recovery"]
+            if spec["recs"]:
+                seams += ["recognizer"] * 3
+            if sc.get("dynamic"):
+                seams += ["filter"] * 2
+            job["abort"] = {"seam": rng.choice(seams), "k": rng.randint(1, 10)}
         jobs.append(job)
     return spec, jobs
 
